@@ -15,7 +15,7 @@ use serde::{Deserialize, Serialize};
 use serde_json::{json, Value};
 use std::collections::{BTreeMap, HashSet};
 
-pub const RULE: &str = "(a) move/undo histories (special-move biased, up to 120 ops) from set-up and reachable seeds: after every apply and undo the key must equal the key of a board built from scratch (put in square order, one lose_castle_rights, one push_en_passant_target) with the same placement, rights and ep target - so any two histories ending in the same position are compared transitively; (b) direct set-up histories of put (including refused puts on occupied squares), remove (including empty squares), lose/pop castle rights and push/pop en-passant target in generated orders, compared with the from-scratch key after every operation; (c) constants read black-box from single-feature boards: 768 piece keys and 64 ep keys non-zero and pairwise distinct (also across the two families and against the rights-set keys), 16 rights-set keys pairwise distinct, and additivity key(set-up) == XOR of its constants; (d) N draws of the build script's table generator (precompile::zobrist::write_zobrist_tables) parsed back: 768 + 64 non-zero pairwise distinct entries, 16 distinct rights entries. Non-trivial history = contains a double step and an expired ep target, a rights change, castle or en passant; distinct = hash of the op sequence.";
+pub const RULE: &str = "(a) move/undo histories (special-move biased, up to 120 ops, with occasional direct puts on untouched squares in the middle and continuation on a clone; marathon games of more than 1024 plies) from set-up and reachable seeds: after every apply and undo the key must equal the key of a board built from scratch (put in square order, one lose_castle_rights, one push_en_passant_target) with the same placement, rights and ep target - so any two histories ending in the same position are compared transitively; (b) direct set-up histories of put (including refused puts on occupied squares), remove (including empty squares), lose/pop castle rights and push/pop en-passant target in generated orders, compared with the from-scratch key after every operation; (c) constants read black-box from single-feature boards: 768 piece keys and 64 ep keys non-zero and pairwise distinct (also across the two families and against the rights-set keys), 16 rights-set keys pairwise distinct, and additivity key(set-up) == XOR of its constants; (d) N draws of the build script's table generator (precompile::zobrist::write_zobrist_tables) parsed back: 768 + 64 non-zero pairwise distinct entries, 16 distinct rights entries. Non-trivial history = contains a double step and an expired ep target, a rights change, castle or en passant; distinct = hash of the op sequence.";
 
 #[derive(Clone, Debug, Serialize, Deserialize)]
 pub enum SetupOp {
@@ -385,6 +385,7 @@ fn replay_none(_: &Value) -> Result<TestResult, String> {
 pub fn checks() -> Vec<Box<dyn DynCheck>> {
     vec![
         Box::new(C05Histories),
+        Box::new(super::hist::C05Marathon),
         Box::new(Setups),
         Box::new(FnCheck {
             name: "C05/constants",
